@@ -511,39 +511,6 @@ class EventBus:
         assert event.event_type and event.event_type.isidentifier(), 'Missing event.event_type: str'
         assert event.event_schema and '@' in event.event_schema, 'Missing event.event_schema: str (with @version)'
 
-        # Automatically set event_parent_id from context if not already set
-        if event.event_parent_id is None:
-            current_event: 'BaseEvent[Any] | None' = _current_event_context.get()
-            # a forwarding handler dispatches the event it is handling: that must not make the event its own parent
-            if current_event is not None and current_event.event_id != event.event_id:
-                event.event_parent_id = current_event.event_id
-                event._event_parent = current_event  # pyright: ignore[reportPrivateUsage]
-
-        # Track child events - if we're inside a handler, add this event to the handler's event_children list
-        # Only track if this is a NEW event (not forwarding an existing event)
-        current_handler_id = _current_handler_id_context.get()
-        if current_handler_id is not None and inside_handler_context.get():
-            current_event = _current_event_context.get()
-            if current_event is not None and current_handler_id in current_event.event_results:
-                # Only add as child if it's a different event (not forwarding the same event)
-                if event.event_id != current_event.event_id:
-                    current_event.event_results[current_handler_id].event_children.append(event)
-
-        # Add this EventBus to the event_path if not already there
-        if self.name not in event.event_path:
-            # preserve identity of the original object instead of creating a new one, so that the original object remains awaitable to get the result
-            # NOT: event = event.model_copy(update={'event_path': event.event_path + [self.name]})
-            event.event_path.append(self.name)
-        else:
-            logger.debug(
-                f'⚠️ {self}.dispatch({event.event_type}) - Bus already in path, not adding again. Path: {event.event_path}'
-            )
-
-        assert event.event_path, 'Missing event.event_path: list[str] (with at least the origin function name recorded in it)'
-        assert all(entry.isidentifier() for entry in event.event_path), (
-            f'Event.event_path must be a list of valid EventBus names, got: {event.event_path}'
-        )
-
         # Check hard limit on total pending events (queue + in-progress)
         # Only enforce if we have memory limits set
         if self.max_history_size is not None:
@@ -565,17 +532,51 @@ class EventBus:
         if self.event_queue:
             try:
                 self.event_queue.put_nowait(event)
-                # Only add to history after successfully queuing
-                self.event_history[event.event_id] = event
-                logger.info(
-                    f'🗣️ {self}.dispatch({event.event_type}) ➡️ {event.event_type}#{event.event_id[-4:]} (#{self.event_queue.qsize()} {event.event_status})'
-                )
             except asyncio.QueueFull:
                 # Don't add to history if we can't queue it
                 logger.error(
                     f'⚠️ {self} Event queue is full! Dropping event and aborting {event.event_type}:\n{event.model_dump_json()}'  # pyright: ignore[reportUnknownMemberType]
                 )
                 raise  # could also block indefinitely until queue has space, but dont drop silently or delete events
+            else:
+                # Only record lineage / path / history after successfully queuing: a rejected dispatch must leave no trace
+                # Automatically set event_parent_id from context if not already set
+                if event.event_parent_id is None:
+                    current_event: 'BaseEvent[Any] | None' = _current_event_context.get()
+                    # a forwarding handler dispatches the event it is handling: that must not make the event its own parent
+                    if current_event is not None and current_event.event_id != event.event_id:
+                        event.event_parent_id = current_event.event_id
+                        event._event_parent = current_event  # pyright: ignore[reportPrivateUsage]
+
+                # Track child events - if we're inside a handler, add this event to the handler's event_children list
+                # Only track if this is a NEW event (not forwarding an existing event)
+                current_handler_id = _current_handler_id_context.get()
+                if current_handler_id is not None and inside_handler_context.get():
+                    current_event = _current_event_context.get()
+                    if current_event is not None and current_handler_id in current_event.event_results:
+                        # Only add as child if it's a different event (not forwarding the same event)
+                        if event.event_id != current_event.event_id:
+                            current_event.event_results[current_handler_id].event_children.append(event)
+
+                # Add this EventBus to the event_path if not already there
+                if self.name not in event.event_path:
+                    # preserve identity of the original object instead of creating a new one, so that the original object remains awaitable to get the result
+                    # NOT: event = event.model_copy(update={'event_path': event.event_path + [self.name]})
+                    event.event_path.append(self.name)
+                else:
+                    logger.debug(
+                        f'⚠️ {self}.dispatch({event.event_type}) - Bus already in path, not adding again. Path: {event.event_path}'
+                    )
+
+                assert event.event_path, 'Missing event.event_path: list[str] (with at least the origin function name recorded in it)'
+                assert all(entry.isidentifier() for entry in event.event_path), (
+                    f'Event.event_path must be a list of valid EventBus names, got: {event.event_path}'
+                )
+
+                self.event_history[event.event_id] = event
+                logger.info(
+                    f'🗣️ {self}.dispatch({event.event_type}) ➡️ {event.event_type}#{event.event_id[-4:]} (#{self.event_queue.qsize()} {event.event_status})'
+                )
         else:
             logger.warning(f'⚠️ {self}.dispatch() called but event_queue is None! Event not queued: {event.event_type}')
 
